@@ -20,13 +20,14 @@ Init == /\ hist = <<>> /\ rxq = <<>> /\ pc = "idle" /\ retries = 0 /\ resp = Str
 
 BeginReq ==
   /\ pc = "idle" /\ Len(hist) < MaxReq
-  /\ \E kind \in {"cmd", "qok", "qnook", "noport", "notext"}, d1 \in Delays, d2 \in Delays, f \in Faults :
+  /\ \E kind \in {"cmd", "qok", "qnook", "noport", "notext"}, d1 \in Delays, d2 \in Delays, f \in Faults, bl \in BOOLEAN :
+       /\ (bl => (kind \in {"qok", "qnook"} /\ f = "none" /\ d2 = 0))
        /\ (kind \in {"noport", "notext"}) => (d1 = 0 /\ d2 = 0 /\ f = "none")
        /\ (kind # "qok") => d2 = 0
        /\ (f # "none") => (nfault < MaxFaults /\ d1 \in {0, 1} /\ d2 = 0)
        /\ (f = "rNraise") => kind = "qok"
        /\ (f = "r2raise") => d1 = 1              \* the exception hits the first RETRY read (after one timeout)
-       /\ hist' = Append(hist, [kind |-> kind, d1 |-> d1, d2 |-> d2, fault |-> f])
+       /\ hist' = Append(hist, [kind |-> kind, d1 |-> d1, d2 |-> d2, fault |-> f, blank |-> bl])
        /\ nfault' = IF f = "none" THEN nfault ELSE nfault + 1
        /\ pc' = IF kind \in {"noport", "notext"} THEN "ret" ELSE "write"
   /\ retries' = 0 /\ resp' = Str(Empty) /\ wrote' = 0 /\ ret' = "none" /\ dataSeen' = FALSE
@@ -35,7 +36,7 @@ BeginReq ==
 Write ==
   /\ pc = "write" /\ wrote' = wrote + 1
   /\ IF Plan.fault = "wraise" THEN pc' = "caught" /\ UNCHANGED rxq
-     ELSE pc' = "read1" /\ rxq' = rxq \o Enq(Plan.kind, N, Plan.d1, Plan.d2, Plan.fault)
+     ELSE pc' = "read1" /\ rxq' = rxq \o Enq(Plan.kind, N, Plan.d1, Plan.d2, Plan.fault, Plan.blank)
   /\ UNCHANGED <<hist, retries, resp, ret, nfault, dataSeen>>
 
 \* first read: decoded
@@ -95,7 +96,7 @@ NoRaise        == pc # "raised"
 WriteOnce      == pc = "ret" => wrote = (IF IsReal THEN 1 ELSE 0)
 NoOp           == (pc = "ret" /\ ~IsReal) => (ret = "none" /\ wrote = 0)
 QueryReturnsText == (pc = "ret" /\ IsQuery) => resp.typ = "str"
-ReturnsOwnLine == (pc = "ret" /\ IsQuery /\ Conforming) => ret = <<"data", N>>
+ReturnsOwnLine == (pc = "ret" /\ IsQuery /\ Conforming) => ret = DataTok(N, Plan.blank)
 Aligned        == (pc = "ret" /\ Conforming) => rxq = <<>>
 \* "or an empty string when nothing arrived"
 EmptyWhenSilent == (pc = "ret" /\ IsQuery /\ Plan.fault \in {"silent", "wraise", "r1raise"} /\ rxq = <<>>
